@@ -351,6 +351,26 @@ func parseGroup(mp *msgParser, tags []Tag) {
 			break
 		} else {
 			// Found a body field outside the group.
+			// Did this tag occur after a nested group and belongs to an enclosing group.
+			inParent := false
+			for len(tags) > 1 {
+				tags = tags[:len(tags)-1]
+				fields = getGroupFields(mp.msg, tags, mp.appDataDictionary)
+				if isGroupMember(mp.parsedFieldBytes.tag, fields) {
+					inParent = true
+					break
+				}
+			}
+			if inParent {
+				// Add the field member to the enclosing group.
+				dm = append(dm, *mp.parsedFieldBytes)
+				// Is this field another nested repeating group of the enclosing group.
+				if isNumInGroupField(mp.msg, append(tags[:len(tags):len(tags)], mp.parsedFieldBytes.tag), mp.appDataDictionary) {
+					tags = append(tags[:len(tags):len(tags)], mp.parsedFieldBytes.tag)
+					fields = getGroupFields(mp.msg, tags, mp.appDataDictionary)
+				}
+				continue
+			}
 			searchTags := []Tag{mp.parsedFieldBytes.tag}
 			// Is this a new group not inside the existing group.
 			if isNumInGroupField(mp.msg, searchTags, mp.appDataDictionary) {
@@ -358,18 +378,8 @@ func parseGroup(mp *msgParser, tags []Tag) {
 				mp.msg.Body.add(dm)
 				// Cycle again with the new group.
 				dm = mp.msg.fields[mp.fieldIndex : mp.fieldIndex+1]
-				fields = getGroupFields(mp.msg, searchTags, mp.appDataDictionary)
-				continue
-			}
-			if len(tags) > 1 {
-				searchTags = tags[:len(tags)-1]
-			}
-			// Did this tag occur after a nested group and belongs to the parent group.
-			if isNumInGroupField(mp.msg, searchTags, mp.appDataDictionary) {
-				// Add the field member to the group.
-				dm = append(dm, *mp.parsedFieldBytes)
-				// Continue parsing the parent group.
-				fields = getGroupFields(mp.msg, searchTags, mp.appDataDictionary)
+				tags = searchTags
+				fields = getGroupFields(mp.msg, tags, mp.appDataDictionary)
 				continue
 			}
 			// Add the repeating group.
